@@ -7,13 +7,13 @@ several fresh interpreters (different PYTHONHASHSEED, different unrelated earlie
 
   zcorpus     hand-written witnesses of the three neighbourhoods, each alone in its interpreter
   genparams   generator calls whose parameter is drawn from a grammar of VALUE KINDS: int, str (incl. quotes, backslashes,
-              blanks), float, bool, None, enum, Prefixed, tuple, frozenset (of str, of int, of tuples, of frozensets — chains,
+              blanks), float, bool, None, enum, Prefixed, tuple, frozenset (of str, of int, of enum members, of tuples, of frozensets — chains,
               pairwise incomparable groups, overlapping groups —, of mixed types, of sets of sets), nested paramclass, typed
               (typing.FrozenSet[FrozenSet[str]] ... rebuilt by pydantic) or typing.Any.  Tie: the text the implementation names a
               value by (json.dumps(value, default=hdl21_naming_encoder, sort_keys=True)) against Model/C12ZCanon.v:jtext.
   longnames   reference-group designs and bundle designs whose instance / port / bundle / signal names are stretched so that
               the implicit and flattened names `<a>_<b>` fall just below, at and just above flatname's limit (read from the
-              translated table Hdl21Gen.Limits), with and without an explicit signal already carrying the name.  Tie: the
+              translated table Hdl21Gen.Limits), with and without an explicit signal already carrying the name, with unnamed no-connects.  Tie: the
               reference-group designs against which_repaired + BundleFlat.flatname (names, or refusal in EVERY process).
   pdkreg      whole design PROGRAMS over the PDK registry, one per interpreter: imports of PDK packages in some order,
               set_default, compile without pdk= / by name / by module.  Tie: the outcome of every operation (compiled to which
@@ -113,6 +113,8 @@ def gen_value(r, shape=None, depth=0):
         return ["t", [str_set(r), incomparable_sets(r, r.randint(2, 3)), ["i", 7]]]
     if shape == "set_in_paramclass":
         return ["pc", gen_value(r, r.choice(["incomparable_sets", "set_of_str", "set_of_tuples"]), depth + 1), gen_atom(r)]
+    if shape == "set_of_enums":                 # enum members hash by their name (a str): hash-seed dependent order
+        return fs([["e", x] for x in r.sample("ABC", r.randint(2, 3))] + ([S("a")] if r.random() < 0.3 else []))
     if shape == "set_of_int":
         return fs([["i", k] for k in r.sample(range(-5, 60), r.randint(2, 6))])
     if shape == "atoms":
@@ -130,7 +132,7 @@ def gen_value(r, shape=None, depth=0):
 
 
 SHAPES = ["set_of_str", "incomparable_sets", "incomparable_sets", "chain_and_more", "set_of_tuples", "mixed_set", "set_of_sets_of_sets",
-          "sets_in_tuple", "set_in_paramclass", "set_of_int", "atoms", "random", "random"]
+          "sets_in_tuple", "set_in_paramclass", "set_of_int", "set_of_enums", "atoms", "random", "random"]
 
 
 def py(v):
@@ -185,6 +187,8 @@ def features(v, out, inside=None):
                 out.add("set_of_str")
             if kinds == {"t"}:
                 out.add("set_of_tuples")
+            if "e" in kinds:
+                out.add("set_with_enum_members")
             if len(kinds) > 1:
                 out.add("mixed_set")
             if kinds == {"fs"}:
@@ -285,9 +289,18 @@ def gen_long_cyc(r, limit, tag=""):
         pmap[p] = pad(p, total - li - 1, "x")
     out = dict(insts=[[imap[n], [pmap[p] for p in ps]] for n, ps in cyc["insts"]],
                edges=[[imap[a], pmap[p], imap[b], pmap[q]] for a, p, b, q in cyc["edges"]], tag=tag)
-    if r.random() < 0.35:                            # an explicit signal already carries the name an implicit one would get
-        n, ps = r.choice(out["insts"])
-        out["sigs"] = [f"{n}_{r.choice(ps)}"[:limit]]
+    if r.random() < 0.5:                             # an instance whose ports go to unnamed no-connects (signals named <inst>_<port>)
+        nports = [pad(p, limit + r.choice([0, 0, -1, -2, -5] + ([1, 2] if refuse else [])) - li - 1, "z") for p in r.sample(["k", "m", "n"], r.randint(1, 2))]
+        ninst = pad("nc0", li, "y")
+        out["insts"].append([ninst, nports])
+        out["ncs"] = [[ninst, p] for p in nports]
+    if r.random() < 0.5:                             # an explicit signal already carries the name an implicit one would get
+        namers = []                                  # the ports that name an implicit signal (harness-side reading; the tie decides)
+        for g in c12.cyc_groups(out):
+            un = [m for m in g if not m[2]]
+            namers.append(tuple(un[0][:2]) if len(un) == 1 else min((i, p) for i, p, _ in g))
+        i, p = r.choice(namers) if namers and r.random() < 0.8 else (out["insts"][0][0], out["insts"][0][1][0])
+        out["sigs"] = [f"{i}_{p}"[:limit]]
     return dict(kind="cyc", cyc=out, long=True)
 
 
@@ -341,7 +354,7 @@ def long_nontrivial(job, limit):
 
 def c_lcase(job, rs):
     cyc = job["cyc"]
-    groups = c12.cyc_groups(cyc)
+    groups = c12.cyc_groups(cyc) + [[[i, p, False]] for i, p in cyc.get("ncs", [])]     # a no-connect: a group of its own, named by its port
     avoid = [n for n, _ in cyc["insts"]] + list(cyc.get("sigs", []))
     obs = []
     for r in rs:
@@ -497,6 +510,12 @@ def need(run, stream, label, have, want):
                       dict(kind="coverage"), found_input=False)
 
 
+def avoided(job, o):
+    """an exported signal is `<explicit signal>_`: the implicit name had to step aside"""
+    names = {s for _, ns in o[0][1].get("sigs", []) for s in ns}
+    return any(x + "_" in names for x in job.get("cyc", {}).get("sigs", []))
+
+
 def differs(o, key):
     vals = [json.dumps(r.get(key)) for _, r in o if not r["pkg"].startswith("!build")]
     return len(set(vals)) > 1
@@ -513,7 +532,8 @@ def run_streams(run, tier, seed, hashseeds):
                                     "the flatname limit with and without a colliding explicit signal (the PDK registry witnesses lead the pdkreg stream: one "
                                     "program per interpreter); all non-trivial")
     ties = run_ties(run, "zcorpus", jobs, obs, bad)
-    run.coverage["streams"]["zcorpus"]["model_tie_cases"] = ties
+    collided_corpus = sum(1 for j, o in zip(jobs, obs) if avoided(j, o))
+    run.coverage["streams"]["zcorpus"].update(model_tie_cases=ties, exported_with_an_implicit_name_that_avoided_an_explicit_signal=collided_corpus)
 
     # ---- genparams
     n = 28 if quick else 240
@@ -533,7 +553,7 @@ def run_streams(run, tier, seed, hashseeds):
     st.update(model_tie_cases=ties, value_features=dict(sorted(feats.items())), designs_whose_sets_iterated_differently=iter_differs,
               designs_with_3_incomparable_sets_iterated_differently=inc_differs)
     for f, want in (("set_of_str", 3), ("pairwise_incomparable_sets", 4), ("three_incomparable_sets", 3), ("partly_comparable_sets", 1),
-                    ("set_of_tuples", 2), ("mixed_set", 2), ("set_in_set", 2), ("set_in_tuple", 2), ("set_in_paramclass", 2),
+                    ("set_of_tuples", 2), ("set_with_enum_members", 1), ("mixed_set", 2), ("set_in_set", 2), ("set_in_tuple", 2), ("set_in_paramclass", 2),
                     ("typed_set_parameter", 2)):
         need(run, "genparams", f, feats.get(f, 0), want)
     need(run, "genparams", "designs whose sets iterated in different orders in different processes", iter_differs, 5)
@@ -554,13 +574,16 @@ def run_streams(run, tier, seed, hashseeds):
     longest = [max([len(s) for _, names in o[0][1].get("sigs", []) for s in names] + [0]) for o in obs]
     at_limit = sum(1 for x in longest if x == limit)
     near = sum(1 for x in longest if limit - 2 <= x <= limit)
+    collided = sum(1 for j, o in zip(jobs, obs) if avoided(j, o))
     st = run.coverage["streams"]["longnames"]
-    st.update(model_tie_cases=ties, limit=limit, refused_in_every_process=refused, exported_with_a_name_of_exactly_the_limit=at_limit,
+    st.update(exported_with_an_implicit_name_that_avoided_an_explicit_signal=collided, with_unnamed_noconnects=sum(1 for j in jobs if j.get("cyc", {}).get("ncs")),
+              model_tie_cases=ties, limit=limit, refused_in_every_process=refused, exported_with_a_name_of_exactly_the_limit=at_limit,
               exported_with_a_name_within_2_of_the_limit=near, with_colliding_explicit_signal=sum(1 for j in jobs if j.get("cyc", {}).get("sigs")))
     need(run, "longnames", "designs refused (RuntimeError) in every process", refused, 4)
     need(run, "longnames", "designs exported with a signal name within 2 characters of the limit", near, 4)
     need(run, "longnames", "designs exported with a signal name of exactly the limit", at_limit, 1)
     need(run, "longnames", "reference-group designs tied to the model", ties, 8)
+    need(run, "longnames", "designs (zcorpus + longnames) exported with an implicit name that had to avoid an explicit signal", collided + collided_corpus, 1)
 
     # ---- pdkreg: one program per interpreter
     n = 5 if quick else 60
